@@ -161,6 +161,14 @@ class ScriptSock:
         b = self._next()
         data = bytes(data)
         u = self._offered(data)
+        if b is not None and b["k"] == "deliver" and b["n"] < len(u) and self.script and self.script[0]["k"] in ("eintr", "eagain", "ewouldblock"):
+            # part of the buffer goes out, then the kernel interrupts the call (a send timeout, a signal): sendall raises
+            k = b["n"]
+            self.peer.extend(data[:k * self.B])
+            self.calls.append({"r": "accept", "u": u, "k": k})
+            e = self.script.pop(0)
+            self.calls.append({"r": "sendall_error", "u": u[k:], "k": 0})
+            raise ERR[e["k"]]()
         if b is None or b["k"] == "deliver":
             self.peer.extend(data)
             self.calls.append({"r": "accept", "u": u, "k": len(u)})
@@ -225,8 +233,9 @@ def cases_from(scripts, ctx):
                     out.append({"kind": "recv", "n": sc["n"], "s": sc["s"], "B": B, "waitall": waitall, "blocking": True})
             if not any(b["k"] == "eof" for b in sc["s"]):
                 for blocking in (False, True):
-                    if blocking and len(sc["s"]) > 1:
-                        continue        # sendall consumes one behaviour only
+                    if blocking and len(sc["s"]) > 1 and not (len(sc["s"]) == 2 and sc["s"][0]["k"] == "deliver"
+                                                              and sc["s"][1]["k"] in ("eintr", "eagain", "ewouldblock")):
+                        continue        # sendall consumes one behaviour (or goes out in part and is then interrupted)
                     out.append({"kind": "send", "n": sc["n"], "s": sc["s"], "B": B, "blocking": blocking})
     return out
 
@@ -249,6 +258,14 @@ def run(ctx):
     if len(scripts) < 100:
         raise util.MachineryError("script generation produced too few scripts")
     cases = cases_from(scripts, ctx)
+    # long runs of retryable errors inside one call (a quiet peer on a non-blocking socket): the call keeps retrying
+    for e in ("eintr", "eagain", "ewouldblock"):
+        for n_err in (14, 25, 40):
+            burst = [{"k": e, "n": 0}] * n_err
+            for n in (1, 3):
+                cases.append({"kind": "recv", "n": n, "s": burst + [{"k": "deliver", "n": n}], "B": 1, "waitall": False})
+                cases.append({"kind": "recv", "n": n, "s": [{"k": "deliver", "n": 0}] * 0 + burst, "B": 1, "waitall": True})
+                cases.append({"kind": "send", "n": n, "s": burst + [{"k": "deliver", "n": n}], "B": 1, "blocking": False})
     # (3) drive the real code
     traces, kept = [], []
     skipped = 0
